@@ -16,11 +16,11 @@ import (
 
 func init() {
 	simkit.Register(&simkit.Prop{
-		ID:   "C20",
-		Desc: "block encoding round-trips and binds the transaction list",
-		Rule: "a run = 6..30 blocks with 0..6 generated signed transactions and 1..4 bookkeeper signatures, each sent as bytes and altered in flight by a tape-chosen fault: none / transactions reordered / one duplicated / one dropped / one replaced by another valid transaction / transaction count field changed / a byte flipped in a tape-chosen header field (version, previous hash, transactions root, block root, timestamp, height, consensus data, consensus payload, next bookkeeper) / bookkeeper list or signatures changed only / random byte flip / truncation. For every byte string the decoder (BlockFromRawBytes) accepts: ToArray() equals the consumed prefix of the input; the header's transaction root equals the merkle root of the decoded transactions' hashes; no transaction hash occurs twice; if only bookkeepers/signatures were changed the block hash is unchanged; if any other header field was changed the block hash differs from the original. non-trivial = >= 2 accepted altered blocks evaluated and >= 2 rejected; distinct = distinct event-trace hash",
-		Real: []string{"core/types block and header codecs", "core/types transaction codec", "common.ComputeMerkleRoot"},
-		Stub: []string{"block producer and corrupting link (harness)"},
+		ID:             "C20",
+		Desc:           "block encoding round-trips and binds the transaction list",
+		Rule:           "a run = 6..30 blocks with 0..6 generated signed transactions and 1..4 bookkeeper signatures, each sent as bytes and altered in flight by a tape-chosen fault: none / transactions reordered / one duplicated / one dropped / one replaced by another valid transaction / transaction count field changed / a byte flipped in a tape-chosen header field (version, previous hash, transactions root, block root, timestamp, height, consensus data, consensus payload, next bookkeeper) / bookkeeper list or signatures changed only / random byte flip / truncation. For every byte string the decoder (BlockFromRawBytes) accepts: ToArray() equals the consumed prefix of the input; the header's transaction root equals the merkle root of the decoded transactions' hashes; no transaction hash occurs twice; if only bookkeepers/signatures were changed the block hash is unchanged; if any other header field was changed the block hash differs from the original. non-trivial = >= 2 accepted altered blocks evaluated and >= 2 rejected; distinct = distinct event-trace hash",
+		Real:           []string{"core/types block and header codecs", "core/types transaction codec", "common.ComputeMerkleRoot"},
+		Stub:           []string{"block producer and corrupting link (harness)"},
 		Assumptions:    []string{"the only simulator dimension is in-flight corruption by a faulty peer; exploration over generated corruptions, not all byte strings"},
 		ExpectedProbes: []string{"accepted_altered", "rejected_altered", "sig_only_change_accepted", "header_field_change_accepted"},
 		Run:            runC20,
